@@ -120,7 +120,7 @@ def lu_scale(A):
 
 
 class Prop(BaseProp):
-    coq_targets = ['ND/Proofs/C12_proofs.vo', 'ND/Proofs/C12_lu.vo']
+    coq_targets = ['ND/Proofs/C12_proofs.vo', 'ND/Proofs/C12_lu.vo', 'ND/Proofs/C12_inv.vo']
     extra_model_targets = ['ND/Hand/LinAlg.vo']
     n_quick, n_thorough = 300, 4000
 
